@@ -793,6 +793,8 @@ def main(tier="quick", seed=0, bounded=True, proof=True):
         "recording contracts: load_atomic_gaussian_params returns (coefficients, exponents) of the element; coulomb_potential is the potential of its "
         "normalized Gaussians (C17); scipy.optimize.nnls / _fit_residual_gaussians return a fit and its residual",
         "number of atoms instantiated (1-2) in the composition obligations; grid size, data, number of primitives and fit size symbolic",
+        "interpolate_laplacian: radial_component_splines / convert_cartesian_to_spherical / generate_real_spherical_harmonics by recording contracts "
+        "(C09, C08); every row index below (l_half+1)^2 is l^2 + k for exactly one degree l with 0 <= k <= 2l (integer square root; stated, not proved)",
     ]
     if proof:
         build(chk)
